@@ -109,11 +109,14 @@ def Enum.wf (e : Enum) : Bool := identOk e.name && e.values.all EnumValue.wf && 
 /-- function.rs:19 `opt(tuple((tag("oneway"), blank)))` reads a result type spelled `oneway` as the
 flag; function.rs:29-39 `throws` after the argument list belongs to the previous function
 (excluded as the first word of a result type: a simplification, the parser would still reject the
-mis-reading for lack of `(`); function.rs:44-50 an argument without requiredness becomes `required`. -/
+mis-reading for lack of `(`); function.rs:44-50 an argument without requiredness becomes `required`,
+so a `required` argument may be printed without the keyword — its type must then not be spelled
+`required` / `optional` (field.rs:34). -/
 def Function.wf (f : Function) : Bool :=
   identOk f.name && f.resultType.wf && nameAfterTypeOk f.resultType f.name &&
   (f.oneway || !f.resultType.headIs cs!"oneway") && !f.resultType.headIs cs!"throws" &&
-  f.arguments.all (fun a => a.wf && a.attr != .default) && f.throws.all Field.wf &&
+  f.arguments.all (fun a => a.wf && a.attr != .default &&
+    (a.attr != .required || (!a.ty.headIs cs!"required" && !a.ty.headIs cs!"optional"))) && f.throws.all Field.wf &&
   Annotations.wf f.annotations
 
 def Service.wf (s : Service) : Bool :=
